@@ -1111,13 +1111,34 @@ fn c10_step(b: &Built, g: &mut Inner, st: &mut State, n: usize, from: usize, to:
         Some(e) => e,
         None => return,
     };
-    // member errors are C05's business (finding D); the model says nothing about them
-    if b.puppet_specs.iter().any(|s| s.fin == Fin::Err) {
-        return;
-    }
     let op = b.op.clone();
     let mem = members(g, n, owner);
     let ts = times(g, se);
+    // member errors are C05's business (finding D: an Error is counted as a completion); with a
+    // failing member only the weakest reading of "completes after all members have ended" is
+    // judged: once every member has ended, one way or the other, the sink has heard *a* terminal
+    if b.puppet_specs.iter().any(|s| s.fin == Fin::Err) {
+        let all_ended = mem.iter().all(|m| m.as_ref().map(|m| m.t.dterm_ev >= 0).unwrap_or(false));
+        if all_ended {
+            let last = mem.iter().map(|m| m.as_ref().unwrap().t.dterm_ev as usize).max_by_key(|i| g.events[*i].t_in).unwrap();
+            if ts.open_at(g.events[last].t_in) && ts.greet_in < g.events[last].t_in {
+                bump(st, "c10.all-ended-with-a-failure");
+                if !(ts.dterm_ev >= 0 && within(g, ts.dterm_ev as usize, last)) {
+                    report(
+                        g,
+                        st,
+                        &["C10"],
+                        "no-terminal-although-every-member-ended",
+                        &op,
+                        se,
+                        last as i32,
+                        "every member has ended (at least one with an Error); the sink received neither Terminate nor Error".into(),
+                    );
+                }
+            }
+        }
+        return;
+    }
     // (a) greeted once all members have greeted
     if mem.iter().all(|m| m.as_ref().map(|m| m.t.greet_ev >= 0).unwrap_or(false)) {
         bump(st, "c10.greeting");
